@@ -652,6 +652,33 @@ fn gen_one(rng: &mut impl Rng, g: &GenCfg, len: usize) -> Value {
                 _ => json!({"a": "pub", "t": any_topic(rng)}),
             },
             // "mesh" and "backoff"
+            _ if nt >= 2 && rng.gen_bool(0.04) => {
+                // scenario templates around "one heartbeat changes a peer's membership in several topics"
+                let t0 = rng.gen_range(0..nt);
+                let t1 = (t0 + 1 + rng.gen_range(0..(nt - 1))) % nt;
+                if open[p].is_empty() {
+                    connect(&mut ops, &mut open, &mut next_conn, rng, p, true);
+                }
+                if rng.gen_bool(0.5) {
+                    // subscribes with a negative score (not grafted), recovers, next heartbeat grafts
+                    ops.push(json!({"a": "score", "p": p, "v": -1}));
+                    ops.push(json!({"a": "sub", "t": t0}));
+                    ops.push(json!({"a": "sub", "t": t1}));
+                    ops.push(json!({"a": "rpc", "p": p, "subs": [[t0, true], [t1, true]]}));
+                    ops.push(json!({"a": "score", "p": p, "v": 1}));
+                } else {
+                    // the peer prunes us in two topics; after the backoff heartbeats graft it again
+                    ops.push(json!({"a": "sub", "t": t0}));
+                    ops.push(json!({"a": "sub", "t": t1}));
+                    ops.push(json!({"a": "rpc", "p": p, "subs": [[t0, true], [t1, true]]}));
+                    ops.push(json!({"a": "rpc", "p": p, "prune": [[t0, 60], [t1, 60]]}));
+                    ops.push(json!({"a": "tick", "d": rng.gen_range(1..=3)}));
+                    for _ in 0..rng.gen_range(1..=4) {
+                        ops.push(json!({"a": "hb"}));
+                    }
+                }
+                json!({"a": "hb"})
+            }
             _ => match x {
                 0..=7 => {
                     if open[p].len() < 3 {
@@ -812,8 +839,11 @@ pub fn main(a: &vcommon::Args) {
             let len = a.num(4) as usize;
             let mut out = Out::create(a.get(5));
             let mut rng = vcommon::rng(seed ^ 0x9e37_79b9);
-            for s in directed(&class) {
-                run(&mut out, &s);
+            // `directed=0`: seeded random schedules only (used to measure what they find on their own)
+            if a.kv_num("directed", 1) == 1 {
+                for s in directed(&class) {
+                    run(&mut out, &s);
+                }
             }
             let g = GenCfg { class };
             for _ in 0..runs {
